@@ -284,6 +284,49 @@ def oracle_launch(ctx, pexpect, n):
     ctx.oracle_stats['launch_probe_children'] = tried
 
 
+def oracle_spawn_lookup(ctx, pexpect):
+    """spawn() itself must search the EFFECTIVE path: the env argument's PATH when env is given (os.defpath when
+    that env has no / an empty PATH), the parent's PATH only when no env is given"""
+    base = tempfile.mkdtemp(prefix='c13lk', dir=ctx.work)
+    tried = 0
+    old = os.environ.get('PATH')
+    try:
+        d1, d2 = os.path.join(base, 'parent'), os.path.join(base, 'envdir')
+        for d, mark in ((d1, 'PARENT'), (d2, 'ENVDIR')):
+            os.mkdir(d)
+            p = os.path.join(d, 'c13tool')
+            open(p, 'w').write('#!/bin/sh\necho MARK-%s\n' % mark)
+            os.chmod(p, 0o755)
+        os.environ['PATH'] = d1 + os.pathsep + (old or os.defpath)
+        cases = [(None, 'PARENT'), ({'LANG': 'C'}, None), ({'PATH': ''}, None), ({'PATH': d2}, 'ENVDIR'),
+                 ({'PATH': d2 + os.pathsep + d1}, 'ENVDIR'), ({'PATH': base + os.pathsep + d2}, 'ENVDIR')]
+        for env, want in cases:
+            tried += 1
+            got = None
+            try:
+                child = pexpect.spawn('c13tool', env=env, timeout=20, encoding='utf-8')
+                try:
+                    child.expect(pexpect.EOF)
+                    out = child.before
+                finally:
+                    child.close()
+                got = 'PARENT' if 'MARK-PARENT' in out else ('ENVDIR' if 'MARK-ENVDIR' in out else 'ran:' + out[:60])
+            except pexpect.ExceptionPexpect as e:
+                got = None
+            if got != want:
+                ctx.hit('C13/spawn-lookup', "spawn('c13tool', env=%r) with parent PATH starting with a directory that has c13tool: "
+                        'started %r, the effective PATH selects %r' % (env, got, want),
+                        {'env': env, 'started': got, 'expected': want})
+                break
+    finally:
+        if old is None:
+            os.environ.pop('PATH', None)
+        else:
+            os.environ['PATH'] = old
+        shutil.rmtree(base, ignore_errors=True)
+    ctx.oracle_stats['spawn_lookup_cases'] = tried
+
+
 def run(ctx):
     pexpect = common.preflight()
     thorough = ctx.tier == 'thorough'
@@ -311,6 +354,7 @@ def run(ctx):
     # direct oracle (larger budget when a proof or the correspondence broke: search for the failing input)
     oracle_roundtrip(ctx, pexpect, (200000 if thorough else 20000) * (3 if broken else 1))
     oracle_which_layouts(ctx, pexpect)
+    oracle_spawn_lookup(ctx, pexpect)
     oracle_launch(ctx, pexpect, 40 if thorough else 8)
 
 
